@@ -501,6 +501,9 @@ def dbn_history(draw):
 
 
 def _snap(g):
+    if not g.is_directed():  # an undirected edge has no orientation: (u, v) and (v, u) are the same edge
+        return (frozenset(map(str, g.nodes())), frozenset(frozenset((str(u), str(v))) for u, v in g.edges()),
+                len(getattr(g, "cpds", []) or getattr(g, "factors", [])))
     return (frozenset(map(str, g.nodes())), frozenset((str(u), str(v)) for u, v in g.edges()), len(getattr(g, "cpds", []) or getattr(g, "factors", [])))
 
 
